@@ -130,7 +130,7 @@ def rule_center_distance(ctx: Ctx) -> None:
                 continue
             rv = S(p.retval) if p.retval is not None else ""
             a, b = ("np.array(to_bev(point_1))", "np.array(to_bev(point_2))") if bev else ("np.array(point_1)", "np.array(point_2)")
-            ok = rv in (f"np.linalg.norm({a}-{b},ord=2,axis=0).item()", f"np.linalg.norm({b}-{a},ord=2,axis=0).item()", f"np.linalg.norm({a}-{b}).item()")
+            ok = rv in (f"np.linalg.norm({a}-{b},axis=0,ord=2).item()", f"np.linalg.norm({b}-{a},axis=0,ord=2).item()", f"np.linalg.norm({a}-{b}).item()")
             ctx.check(ok, "C06-center", fn, "norm", f"{fn} returns `{rv[:140]}`; expected the Euclidean norm of the difference", fi=fp)
     tb = ctx.func("common.point.to_bev")
     for p in enum_paths(ctx, tb):
